@@ -854,6 +854,25 @@ def d9(cx: Cx, ob: Ob) -> None:
             for g in s.must_guards(ev):
                 if not (op(g[0]) == "call" and callee_name(g[0]) == "isinstance"):
                     ob.violate(q.qualname, where(q, ev.line), f"_optimize_node runs only if `{'' if g[1] else 'not '}{show(g[0])[:50]}`", detail="conditional-optimisation")
+    # the processor refuses nothing on the strength of the query's SPELLING: a raise (or early answer) under a test
+    # of the raw query text - a keyword looked for as a substring - also hits queries in which the word is part
+    # of an IRI, a literal or a comment
+    for o_, ctx in s.outcomes():
+        if o_ is None or o_[0] != "raise":
+            continue
+        for g in ctx.guards:
+            if g.kind != "guard":
+                continue
+            textual = [x for x in subterms(g.a) if op(x) == "cmp" and x[1] in ("in", "not in") and is_const(x[2]) and isinstance(x[2][1], str) and any(y == qp for y in subterms(x[3]))] + [x for x in subterms(g.a) if op(x) == "call" and op(x[1]) == "attr" and x[1][2] in ("startswith", "find", "index", "count") and any(y == qp for y in subterms(x[1][1]))] + [x for x in subterms(g.a) if op(x) == "call" and op(x[1]) == "ext" and x[1][1].startswith("re.") and any(y == qp for a_ in x[2] for y in subterms(a_))]
+            if textual:
+                ob.violate(
+                    q.qualname,
+                    where(q, o_[2]),
+                    f"query() refuses a query because of its TEXT (`{show(textual[0])[:60]}`): the word is also found inside IRIs, literals and comments, so a valid mapping query that merely mentions such a URI is rejected (HTTP 500) instead of answered",
+                    witness="SELECT ?o WHERE { <https://services.example.org/x> owl:sameAs ?o }: 'SERVICE' is a substring of the upper-cased text",
+                    detail="query-text-filter",
+                )
+                break
     if n_eval == 0:
         ob.undecide("query() never calls evalQuery")
     o = cx.fn(f"{R}._optimize_node", ob.id)
